@@ -323,7 +323,7 @@ class Case:
         f = db.ArchiveFile.get(id=req_row.file_id)
         opts = self.feasible_transfers(src, dest)
         if want:
-            o2 = [o for o in opts if o[0] == want]
+            o2 = [o for o in opts if (o == tuple(want) if isinstance(want, (tuple, list)) else o[0] == want)]
             opts = o2 or opts
         transfer, pathdir, mode = rng.choice(opts)
         src_bytes = self.w.file_on(src, f)
@@ -392,6 +392,37 @@ def healthy_bytes(case):
             st = os.stat(p)
             out[(c.node_id, c.file_id)] = (case.w.file_on(n, f), st.st_mtime_ns)
     return out
+
+
+def transfer_chain(case, rq, problems, want=None):
+    """the daemon's own chain for one pending request: update_pull -> [pre-pull search ->] pull task; returns the list of
+    (model line, step dict) or None when the destination is not served by h1"""
+    db = case.w.db
+    dest = db.StorageNode.get(db.StorageNode.group == rq.group_to_id)
+    if dest.host != "h1" or not dest.active:
+        return None
+    f = db.ArchiveFile.get(id=rq.file_id)
+    chain = dict(kind="chain", file=f.id, dest=dest.id, dst_at_start=case.w.file_on(dest, f),
+                 dest_state_at_start=(db.ArchiveFileCopy.get_or_none(file=f, node=dest) or type("x", (), {"has_file": "N"})).has_file)
+    sub = []
+    l1, d1 = case.step_decide(db.ArchiveFileCopyRequest.get(id=rq.id))
+    sub.append((l1, d1))
+    go = d1["decision"].startswith("dispatch")
+    force = d1["decision"] == "dispatch:1"
+    if go and not force:
+        l2, d2 = case.step_search(db.ArchiveFileCopyRequest.get(id=rq.id), dest)
+        sub.append((l2, d2))
+        go = d2["passOn"]
+    if go:
+        l3, d3 = case.step_pull(db.ArchiveFileCopyRequest.get(id=rq.id), dest, want)
+        d3["chain"] = chain
+        d3["forced"] = force
+        sub.append((l3, d3))
+        if (chain["dst_at_start"] is not None and d3["dst_after"] is not None and d3["dst_after"] != chain["dst_at_start"]
+                and chain["dest_state_at_start"] != "X"):
+            problems.append(("overwrite", f"destination file of file {f.id} on node {dest.id} (copy state "
+                             f"{chain['dest_state_at_start']}) was overwritten by a pull without having been verified corrupt", d3))
+    return sub
 
 
 def random_history(case, nsteps, weights):
@@ -470,30 +501,9 @@ def random_history(case, nsteps, weights):
             if not rows:
                 continue
             rq = rng.choice(rows)
-            dest = db.StorageNode.get(db.StorageNode.group == rq.group_to_id)
-            if dest.host != "h1" or not dest.active:
+            sub = transfer_chain(case, rq, problems)
+            if sub is None:
                 continue
-            f = db.ArchiveFile.get(id=rq.file_id)
-            chain = dict(kind="chain", file=f.id, dest=dest.id, dst_at_start=case.w.file_on(dest, f),
-                         dest_state_at_start=(db.ArchiveFileCopy.get_or_none(file=f, node=dest) or type("x", (), {"has_file": "N"})).has_file)
-            sub = []
-            l1, d1 = case.step_decide(db.ArchiveFileCopyRequest.get(id=rq.id))
-            sub.append((l1, d1))
-            go = d1["decision"].startswith("dispatch")
-            force = d1["decision"] == "dispatch:1"
-            if go and not force:
-                l2, d2 = case.step_search(db.ArchiveFileCopyRequest.get(id=rq.id), dest)
-                sub.append((l2, d2))
-                go = d2["passOn"]
-            if go:
-                l3, d3 = case.step_pull(db.ArchiveFileCopyRequest.get(id=rq.id), dest)
-                d3["chain"] = chain
-                d3["forced"] = force
-                sub.append((l3, d3))
-                if (chain["dst_at_start"] is not None and d3["dst_after"] is not None and d3["dst_after"] != chain["dst_at_start"]
-                        and chain["dest_state_at_start"] != "X"):
-                    problems.append(("overwrite", f"destination file of file {f.id} on node {dest.id} (copy state "
-                                     f"{chain['dest_state_at_start']}) was overwritten by a pull without having been verified corrupt", d3))
             for (l, dd) in sub:
                 lines.append(l); exp.append(None)
                 lines.append("w.dump"); exp.append(None)
